@@ -207,6 +207,34 @@ func c11chunksCoq(cs [][]c11item) string {
 	return coqList(l)
 }
 
+// c11memo shares the Coq text of items and chunks inside one cases file (the same program is fed many times).
+type c11memo struct {
+	names map[string]string
+	defs  strings.Builder
+}
+
+func (m *c11memo) def(prefix, typ, body string) string {
+	if n, ok := m.names[typ+body]; ok {
+		return n
+	}
+	n := fmt.Sprintf("%s%d", prefix, len(m.names))
+	m.names[typ+body] = n
+	fmt.Fprintf(&m.defs, "Definition %s : %s := %s.\n", n, typ, body)
+	return n
+}
+
+func (m *c11memo) chunks(cs [][]c11item) string {
+	var l []string
+	for _, c := range cs {
+		var its []string
+		for _, it := range c {
+			its = append(its, m.def("i", "item", it.coq()))
+		}
+		l = append(l, m.def("c", "chunk", coqList(its)))
+	}
+	return m.def("s", "list chunk", coqList(l))
+}
+
 func c11chunkSrc(c []c11item) string {
 	var l []string
 	for _, it := range c {
@@ -1007,6 +1035,29 @@ func runC11(args []string) error {
 		add(&pl)
 		progIdx++
 	}
+	// region main-rerun, interactive variant: the declarations, then func main, then more statements fed as
+	// statement chunks (which are not files): contract = main runs once, where it is declared
+	for i := 0; i < nRerun; i++ {
+		g := &c11gen{r: r.fork()}
+		p := g.program(3+g.r.intn(6), 1+g.r.intn(3))
+		more, _ := g.stmts(2+g.r.intn(4), false, nil)
+		// pointers: the second statement list may only use pointers it sets itself (main's body runs first anyway)
+		progs = append(progs, p)
+		ref := fmt.Sprintf("p%05d", progIdx)
+		addRef(ref, c11refSrc(p.Decls, append(bodySrc(p.Body), bodySrc(more)...), p.Vars, p.Ptrs, nil), len(p.Vars), len(p.Ptrs))
+		rr := r.fork()
+		var moreItems []c11item
+		for _, st := range more {
+			moreItems = append(moreItems, c11item{K: 's', S: st})
+		}
+		for c := 0; c < 2; c++ {
+			pieces := append(c11cut(rr, p.wholeItems(), 2), c11cut(rr, moreItems, 1+rr.intn(2))...)
+			mode := []int{c11Eval, c11CompileAST}[c]
+			pl := c11plan{Region: "main-rerun", Kind: "pieces", Mode: mode, Chunks: pieces, GChunks: pieces, Vars: p.Vars, Ptrs: p.Ptrs, RefName: ref, ProgIdx: -1}
+			add(&pl)
+		}
+		progIdx++
+	}
 
 	// ------------------------------------------------------------ B. histories with redefinition
 	for i := 0; i < nHist+nStale; i++ {
@@ -1062,7 +1113,7 @@ func runC11(args []string) error {
 	}
 
 	// ------------------------------------------------------------ compare, write cases
-	var cases []string
+	var cases []func(memo *c11memo) string
 	wholeOf := map[int]*c11plan{} // program -> its whole evaluation by Eval
 	for _, pl := range plans {
 		if pl.Kind == "whole" && pl.Mode == c11Eval && pl.ProgIdx >= 0 {
@@ -1092,8 +1143,11 @@ func runC11(args []string) error {
 		for _, p := range pl.Ptrs {
 			ps = append(ps, fmt.Sprint(p))
 		}
-		cases = append(cases, fmt.Sprintf("(%d, %d, %s, %s, %s, %s, %s, %s, %s, %s)", pl.ID, pl.Mode, c11chunksCoq(pl.Chunks), coqList(vs), coqList(ps),
-			coqList(obs), pl.Fin.coq(), c11chunksCoq(pl.GChunks), coqList(refOutC), refFin.coq()))
+		pl, obsC, refC, refFinC, vsC, psC := pl, coqList(obs), coqList(refOutC), refFin.coq(), coqList(vs), coqList(ps)
+		cases = append(cases, func(memo *c11memo) string {
+			return fmt.Sprintf("(%d, %d, %s, %s, %s, %s, %s, %s, %s, %s)", pl.ID, pl.Mode, memo.chunks(pl.Chunks), vsC, psC,
+				obsC, pl.Fin.coq(), memo.chunks(pl.GChunks), refC, refFinC)
+		})
 		sm.Evaluations++
 		sm.ImplComparisons++
 		sm.RefComparisons++
@@ -1146,11 +1200,16 @@ func runC11(args []string) error {
 	}
 
 	hdr := "From Verif Require Import Lib.Str Session.Model Session.Cases.\nFrom Coq Require Import NArith.\nOpen Scope N_scope.\n"
-	per := 150
+	per := 120
 	for i, k := 0, 0; i < len(cases); i, k = i+per, k+1 {
 		j := min(i+per, len(cases))
-		body := fmt.Sprintf("Definition cases : list sess_case := [\n%s\n].\nDefinition MY := Eval vm_compute in sess_mis_y cases.\nPrint MY.\nDefinition MG := Eval vm_compute in sess_mis_g cases.\nPrint MG.\n",
-			strings.Join(cases[i:j], ";\n"))
+		memo := &c11memo{names: map[string]string{}}
+		var rendered []string
+		for _, c := range cases[i:j] {
+			rendered = append(rendered, c(memo))
+		}
+		body := fmt.Sprintf("%s\nDefinition cases : list sess_case := [\n%s\n].\nClose Scope N_scope.\nDefinition MY := Eval vm_compute in sess_mis_y cases.\nPrint MY.\nDefinition MG := Eval vm_compute in sess_mis_g cases.\nPrint MG.\n",
+			memo.defs.String(), strings.Join(rendered, ";\n"))
 		name := fmt.Sprintf("cases_sess_%d.v", k)
 		sm.CasesFiles = append(sm.CasesFiles, name)
 		if err := os.WriteFile(filepath.Join(*outDir, name), []byte(hdr+body), 0o644); err != nil {
